@@ -184,6 +184,15 @@ def second_opinion(pid, mod, prog, rep, tier, config):
     for o in resolved:
         out.append(Ob(o.rule, o.key, OK, where=o.where, fn=o.fn, trivial=True,
                       detail='reported on the function as written, discharged on the view with helper functions inlined: ' + (o.detail or '')[:160]))
+    # a rule whose lost anchor was found again on the second view is judged there: carry its obligations over
+    have = {o.key for o in out}
+    for o in resolved:
+        if 'anchor-lost' in o.key and o.rule != 'anchor':
+            for x in ran_b.get(o.rule, []):
+                if x.key not in have:
+                    have.add(x.key)
+                    x.detail = '[on the view with helper functions inlined] ' + (x.detail or '')
+                    out.append(x)
     # rules that could not run on the plain view
     for rule, obs_b in ran_b.items():
         if rule in ran_a or rule == 'anchor':
